@@ -27,6 +27,8 @@
 // <closers> other goroutines, <reps> calls each, started together at <closeat>.
 //   udp: plain UDP listener; every datagram is recorded until 1.5 s after the Close calls returned.
 //   tcp: plain TCP listener; mode full / idle: the harness closes the accepted connection at <peerat>;
+//        slow: it never closes, advertises a small receive window and starts READING only at readat=<ms> (a collector that
+//        is slow to read: the exporter's Write blocks meanwhile, across several connection probes);
 //        half: it shuts down its sending side only (the exporter reads EOF) and keeps reading;
 //        cclose: it never closes; it reads until the exporter's end of stream.
 //   bg = background goroutines of THIS exporter (goroutines that inherited the pprof label set around
@@ -329,6 +331,7 @@ type scenario struct {
 	refresh, check                 int
 	mode                           string
 	peerAt                         int // -1 = never
+	readAt                         int // mode slow: the harness starts reading at this time (ms)
 	closeAt, closers, reps         int
 	sends                          []timedSend
 	hasLoop                        bool
@@ -379,7 +382,7 @@ func parseScenario(f []string) (*scenario, error) {
 		if sc.check, ok = kvInt(toks, "check"); !ok || sc.check < 1 {
 			return nil, fmt.Errorf("check")
 		}
-		if sc.mode, ok = kv(toks, "mode"); !ok || (sc.mode != "full" && sc.mode != "half" && sc.mode != "idle" && sc.mode != "cclose") {
+		if sc.mode, ok = kv(toks, "mode"); !ok || (sc.mode != "full" && sc.mode != "half" && sc.mode != "idle" && sc.mode != "cclose" && sc.mode != "slow") {
 			return nil, fmt.Errorf("mode")
 		}
 		if p, ok := kv(toks, "peerat"); ok && p != "-" {
@@ -389,8 +392,13 @@ func parseScenario(f []string) (*scenario, error) {
 			}
 			sc.peerAt = n
 		}
-		if (sc.mode == "cclose") != (sc.peerAt < 0) {
+		if (sc.mode == "cclose" || sc.mode == "slow") != (sc.peerAt < 0) {
 			return nil, fmt.Errorf("peerat/mode")
+		}
+		if sc.mode == "slow" {
+			if sc.readAt, ok = kvInt(toks, "readat"); !ok || sc.readAt < 0 {
+				return nil, fmt.Errorf("readat")
+			}
 		}
 	}
 	if sc.closeAt, ok = kvInt(toks, "closeat"); !ok {
@@ -752,6 +760,9 @@ func runUDP(sc *scenario) string {
 	go func() {
 		defer close(readerDone)
 		buf := make([]byte, 65536)
+		if sc.mode == "slow" { // a collector that is slow to read: nothing is taken off the socket before <readat>
+			r.sleepUntil(sc.readAt)
+		}
 		for {
 			pc.SetReadDeadline(time.Now().Add(50 * time.Millisecond))
 			n, _, err := pc.ReadFromUDP(buf)
@@ -803,8 +814,22 @@ func runUDP(sc *scenario) string {
 
 // ---- TCP ----------------------------------------------------------------------------------------------
 
+// smallRcvBuf makes the accepted sockets advertise a small receive window (mode slow), so that a reader that does not
+// read blocks the exporter's Write after little data.
+func smallRcvBuf(network, address string, c syscall.RawConn) error {
+	var e error
+	if err := c.Control(func(fd uintptr) { e = syscall.SetsockoptInt(int(fd), syscall.SOL_SOCKET, syscall.SO_RCVBUF, 4096) }); err != nil {
+		return err
+	}
+	return e
+}
+
 func runTCP(sc *scenario) string {
-	ln, err := net.Listen("tcp", "127.0.0.1:0")
+	lc := net.ListenConfig{}
+	if sc.mode == "slow" {
+		lc.Control = smallRcvBuf
+	}
+	ln, err := lc.Listen(context.Background(), "tcp", "127.0.0.1:0")
 	if err != nil {
 		return "harness-error listen"
 	}
@@ -845,6 +870,9 @@ func runTCP(sc *scenario) string {
 	go func() {
 		defer close(readerDone)
 		buf := make([]byte, 65536)
+		if sc.mode == "slow" { // a collector that is slow to read: nothing is taken off the socket before <readat>
+			r.sleepUntil(sc.readAt)
+		}
 		for {
 			n, err := conn.Read(buf)
 			now := time.Now()
